@@ -670,7 +670,8 @@ class RuleTranslator:
         if result.sort != rs:
             raise TranslateError(f"line {r['line']}: create returns sort {result.sort}, optimiser yields {rs}")
         return dict(lhs=lhs, rhs=result.lean, sort=rs, binders=self.binders, hyps=self.hyps, checks=checks,
-                    calls=self.calls, conversions=self.conversions)
+                    calls=self.calls, conversions=self.conversions, lhs_parts=[a.lean for a in lhs_args],
+                    lhs_sorts=asorts)
 
     def type_flags(self, t):
         head = t[1]
@@ -719,6 +720,126 @@ variable {R : Type} [CommRing R]
 """
 
 
+OPT_HEADER = """/-
+GENERATED by translate/remora_rules.py — do not edit.
+An executable optimiser `genOpt` assembled from the rule table (every rule whose recursive calls
+take sub-terms of the matched expression; the product families, which match on the literal scalar 1,
+and rules with run-time side conditions are left to the per-rule lemmas), and the proof that it
+is `Sound` — case by case from the generated lemmas of Gen/RemoraRules.lean.  `optimize_sound`
+(Props/C01.lean) then gives: rewriting with `genOpt` to any depth preserves the denotation.
+-/
+import SharkVerif.Lemmas.RemoraOpt
+import SharkVerif.Gen.RemoraRules
+namespace SharkVerif.Remora.Rules
+open SharkVerif.Remora
+variable {R : Type} [CommRing R]
+
+"""
+
+FAMILIES = {
+    # optimiser: (helper name, lean spec constructor, extra argument names)
+    "vector_range_optimizer": ("rangeStep", "VExp.range", ["a1", "a2"]),
+    "matrix_row_optimizer": ("rowStep", "VExp.row", ["a1"]),
+    "matrix_diagonal_optimizer": ("diagStep", "VExp.diag", []),
+    "vector_scalar_multiply_optimizer": ("vscalStep", "VExp.scal", ["a1"]),
+    "vector_unary_optimizer": ("vunaryStep", "VExp.unary", ["a1"]),
+    "matrix_transpose_optimizer": ("transStep", "MExp.trans", []),
+    "matrix_range_optimizer": ("mrangeStep", "MExp.range", ["a1", "a2", "a3", "a4"]),
+    "matrix_rows_optimizer": ("rowsStep", "MExp.rows", ["a1", "a2"]),
+    "matrix_scalar_multiply_optimizer": ("mscalStep", "MExp.scal", ["a1"]),
+    "matrix_unary_optimizer": ("munaryStep", "MExp.unary", ["a1"]),
+}
+TOP_PATTERN = {"VExp.range": ".range x a1 a2", "VExp.row": ".row x a1", "VExp.diag": ".diag x", "VExp.scal": ".scal x a1",
+               "VExp.unary": ".unary x a1", "MExp.trans": ".trans x", "MExp.range": ".range x a1 a2 a3 a4",
+               "MExp.rows": ".rows x a1 a2", "MExp.scal": ".scal x a1", "MExp.unary": ".unary x a1"}
+
+
+def emit_optimizer(translated):
+    fam = {}
+    for t in translated:
+        tr = t["tr"]
+        if t["opt"] not in FAMILIES or t["default"] or tr["checks"] or tr["conversions"]:
+            continue
+        if any(re.search(r"\br\d+\b", a) for c in tr["calls"] for a in c["args"]):
+            continue
+        fam.setdefault(t["opt"], []).append(t)
+    out = [OPT_HEADER]
+    n = 0
+    for opt, (helper, ctor, extras) in FAMILIES.items():
+        rules = fam.get(opt, [])
+        rs, asorts, _ = OPTIMIZERS[opt]
+        xsort = LEAN_TYPE[asorts[0]]
+        ets = [LEAN_TYPE[srt] for srt in asorts[1:]]
+        sig = " ".join(f"({a} : {ty})" for a, ty in zip(extras, ets))
+        rel = "≈ᵥ" if rs == "V" else "≈ₘ"
+        arms, proofs = [], []
+        for t in rules:
+            tr = t["tr"]
+            parts = tr["lhs_parts"]
+            ren = {old: new for old, new in zip(parts[1:], extras)}
+
+            def rn(txt, ren=ren):
+                for old, new in ren.items():
+                    txt = re.sub(r"(?<![A-Za-z0-9_'.])" + re.escape(old) + r"(?![A-Za-z0-9_'])", new, txt)
+                return txt
+            rhs = rn(tr["rhs"])
+            recs = {}
+            for c, (hn, hs) in zip(tr["calls"], tr["hyps"]):
+                spec = rn(hs.split("≈", 1)[1][1:].strip())
+                crs = OPTIMIZERS[c["opt"]][0]
+                recs[c["var"]] = f"({'recV' if crs == 'V' else 'recM'} ({spec}))"
+            for var, rep in recs.items():
+                rhs = re.sub(r"(?<![A-Za-z0-9_'.])" + re.escape(var) + r"(?![A-Za-z0-9_'])", lambda m, rep=rep: rep, rhs)
+            pat = parts[0]
+            pat = re.sub(r"\((VExp|MExp)\.", "(.", pat) if pat.startswith("(") else pat
+            arms.append(f"  | {pat[1:-1] if pat.startswith('(') else pat} => {rhs}")
+            # proof: rule lemma applied to the binders (recursive results in place of the r_i)
+            args = []
+            for (bn, bt) in tr["binders"]:
+                if bn in recs:
+                    args.append(recs[bn])
+                else:
+                    args.append(rn(bn))
+            pvars = re.findall(r"[A-Za-z_][A-Za-z0-9_']*", parts[0])
+            pvars = [v for v in pvars if v not in ("VExp", "MExp", "true", "false") and not re.match(r"^(scal|const|unit|unary|add|binary|concat|mvprod|rowFold|rep|outer|mmprod|diagm|lit)$", v)]
+            ihs = " ".join(f"({'hV' if OPTIMIZERS[c['opt']][0] == 'V' else 'hM'} _ (by remora_wf))" for c in tr["calls"])
+            proofs.append(f"  · next {' '.join(pvars)} =>\n    exact {t['name']} {' '.join(args)} hwf {ihs}")
+            n += 1
+        spec_x = f"{ctor} x {' '.join(extras)}".strip()
+        out.append(f"/-- `{opt}`: {len(rules)} rules -/\n"
+                   f"def {helper} (recV : VExp R → VExp R) (recM : MExp R → MExp R) (x : {xsort}) {sig} : {LEAN_TYPE[rs]} :=\n"
+                   f"  match x with\n" + "\n".join(arms) + f"\n  | x => {spec_x}\n\n")
+        out.append(f"theorem {helper}_sound (recV : VExp R → VExp R) (recM : MExp R → MExp R)\n"
+                   f"    (hV : ∀ e : VExp R, e.WF → recV e ≈ᵥ e) (hM : ∀ m : MExp R, m.WF → recM m ≈ₘ m)\n"
+                   f"    (x : {xsort}) {sig} (hwf : ({spec_x}).WF) :\n"
+                   f"    {helper} recV recM x {' '.join(extras)} {rel} {spec_x} := by\n"
+                   f"  unfold {helper}\n  split\n" + "\n".join(proofs) +
+                   f"\n  · exact {'vequiv_refl' if rs == 'V' else 'mequiv_refl'} _\n\n")
+    # the optimiser
+    varms = [f"    | {TOP_PATTERN[c]} => {h} recV recM x {' '.join(e)}".rstrip() for o, (h, c, e) in FAMILIES.items() if OPTIMIZERS[o][0] == "V"]
+    marms = [f"    | {TOP_PATTERN[c]} => {h} recV recM x {' '.join(e)}".rstrip() for o, (h, c, e) in FAMILIES.items() if OPTIMIZERS[o][0] == "M"]
+    out.append("/-- one layer of rewriting with the whole (covered) rule table -/\n"
+               "def genStepV (recV : VExp R → VExp R) (recM : MExp R → MExp R) (e : VExp R) : VExp R :=\n  match e with\n"
+               + "\n".join(a[2:] for a in varms) + "\n  | e => e\n\n"
+               "def genStepM (recV : VExp R → VExp R) (recM : MExp R → MExp R) (e : MExp R) : MExp R :=\n  match e with\n"
+               + "\n".join(a[2:] for a in marms) + "\n  | e => e\n\n")
+    vproof = "\n".join(f"  · next x {' '.join(e)} => exact {h}_sound recV recM hV hM x {' '.join(e)} hwf".replace("  =>", " =>")
+                        for o, (h, c, e) in FAMILIES.items() if OPTIMIZERS[o][0] == "V")
+    mproof = "\n".join(f"  · next x {' '.join(e)} => exact {h}_sound recV recM hV hM x {' '.join(e)} hwf".replace("  =>", " =>")
+                        for o, (h, c, e) in FAMILIES.items() if OPTIMIZERS[o][0] == "M")
+    out.append("theorem genStepV_sound (recV : VExp R → VExp R) (recM : MExp R → MExp R)\n"
+               "    (hV : ∀ e : VExp R, e.WF → recV e ≈ᵥ e) (hM : ∀ m : MExp R, m.WF → recM m ≈ₘ m)\n"
+               "    (e : VExp R) (hwf : e.WF) : genStepV recV recM e ≈ᵥ e := by\n  unfold genStepV\n  split\n"
+               + vproof + "\n  · exact vequiv_refl _\n\n")
+    out.append("theorem genStepM_sound (recV : VExp R → VExp R) (recM : MExp R → MExp R)\n"
+               "    (hV : ∀ e : VExp R, e.WF → recV e ≈ᵥ e) (hM : ∀ m : MExp R, m.WF → recM m ≈ₘ m)\n"
+               "    (e : MExp R) (hwf : e.WF) : genStepM recV recM e ≈ₘ e := by\n  unfold genStepM\n  split\n"
+               + mproof + "\n  · exact mequiv_refl _\n\n")
+    out.append(f"/-- number of rewrite rules built into `genStepV` / `genStepM` -/\ndef genOptRuleCount : Nat := {n}\n\n")
+    out.append("end SharkVerif.Remora.Rules\n")
+    return "".join(out), n
+
+
 def main():
     ap = argparse.ArgumentParser()
     ap.add_argument("--repo", default="/repo")
@@ -734,6 +855,7 @@ def main():
                 raise TranslateError(f"class {c}: accessor {name} of the Lean class table not found in the C++ class")
     rules = parse_rules(a.repo)
     out, table, used = [HEADER], [], set()
+    translated = []
     n_ok = n_un = 0
     for r in rules:
         if r["opt"] not in OPTIMIZERS:
@@ -760,6 +882,7 @@ def main():
         out.append(f"/-- `{r['opt']}<{pat}>` (expression_optimizers.hpp:{r['line']}) -/\n"
                    f"theorem {name} {binders}\n    (hwf : ({tr['lhs']}).WF){checks}{hyps} :\n"
                    f"    {tr['rhs']} {rel} {tr['lhs']} := by\n  remora_rule\n\n")
+        translated.append(dict(name=name, opt=r["opt"], default=r["pattern"] is None, tr=tr))
         table.append(dict(name=name, opt=r["opt"], pattern=pat, line=r["line"], status="translated",
                           lhs=tr["lhs"], rhs=tr["rhs"], calls=tr["calls"], checks=tr["checks"], conversions=tr["conversions"],
                           ast=dict(tparams=r["tparam_names"], pattern=r["pattern"], typedefs=r["typedefs"],
@@ -770,6 +893,12 @@ def main():
     if not os.path.exists(a.out) or open(a.out).read() != text:
         with open(a.out, "w") as f:
             f.write(text)
+    opt_text, n_in_opt = emit_optimizer(translated)
+    opt_out = os.path.join(os.path.dirname(a.out), "RemoraOpt.lean")
+    if not os.path.exists(opt_out) or open(opt_out).read() != opt_text:
+        with open(opt_out, "w") as f:
+            f.write(opt_text)
+    print(f"remora_rules: generated optimiser Gen/RemoraOpt.lean covers {n_in_opt} rules")
     os.makedirs(os.path.dirname(a.json), exist_ok=True)
     with open(a.json, "w") as f:
         json.dump(dict(rules=table, total=len(rules), translated=n_ok, uninstantiable=n_un,
